@@ -163,6 +163,9 @@ type SimDA struct {
 	// spin guard: a caller that issues thousands of calls without simulated time passing is busy-looping.
 	// Its calls are then parked until its context ends, so that the bubble can quiesce and the harness
 	// can report what the call log shows.
+	// Yield, when set, is called (no lock held) at the start of every read and listing: the seam for slow callers
+	// (SpinJitter).
+	Yield func()
 	// SlowRead is how long a ReadSlowOK listing takes (default 31 s: longer than the retriever's per-request timeout).
 	SlowRead time.Duration
 	// Latency, when non-zero, is slept (simulated time, no lock held) at the start of every call (Engine N).
@@ -175,6 +178,9 @@ type SimDA struct {
 
 // spinGuard must be called without d.mu held. It parks a busy-looping caller.
 func (d *SimDA) spinGuard(ctx context.Context) {
+	if y := d.Yield; y != nil {
+		y()
+	}
 	d.mu.Lock()
 	now := time.Now()
 	if now.Equal(d.spinAt) {
